@@ -801,19 +801,19 @@ func (g *gen) product(i int, sh, se []desc) []op {
 func pinned() [][]op {
 	num := func(z int) val { return val{4, z} }
 	return [][]op{
-		// C07-writable-lost
+		// C07-writable-lost (fixed b253246: kept as a regression case, ES5 result expected)
 		{{kind: "put", o: 0, n: 0, v: num(1)}, {kind: "define", o: 0, n: 0, d: desc{e: 2}}},
 		// C07-forin-shadow
 		{{kind: "put", o: 0, n: 0, v: num(1)}, {kind: "create", o: 1, p: 0}, {kind: "put", o: 1, n: 0, v: num(2)}},
 		{{kind: "put", o: 0, n: 0, v: num(1)}, {kind: "create", o: 1, p: 0}, {kind: "define", o: 1, n: 0, d: desc{hasValue: true, value: num(2), e: 2}}},
-		// C07-acc-to-data (Go panic escapes Run)
+		// C07-acc-to-data (fixed 11c8465: regression case)
 		{{kind: "define", o: 0, n: 0, d: desc{get: 3, c: 1}}, {kind: "define", o: 0, n: 0, d: desc{w: 1}}},
-		// C07-get-undefined
+		// C07-get-undefined (fixed cbc8127: regression cases)
 		{{kind: "define", o: 0, n: 0, d: desc{get: 1}}},
 		{{kind: "put", o: 0, n: 0, v: num(1)}, {kind: "define", o: 0, n: 0, d: desc{get: 1}}},
 		// C07-defineproperties-partial
 		{{kind: "defines", o: 0, l: []entry{{0, desc{hasValue: true, value: num(1)}}, {1, desc{get: 2}}}}},
-		// C07-forin-delete
+		// C07-forin-delete (fixed 7f33b5d: regression case)
 		{{kind: "put", o: 0, n: 0, v: num(1)}, {kind: "put", o: 0, n: 1, v: num(2)}, {kind: "put", o: 0, n: 2, v: num(3)},
 			{kind: "forindel", o: 0, atN: 0, o2: 0, delN: 0}},
 	}
